@@ -20,6 +20,7 @@ class FakeWS:
         self.hub, self.idx, self.script = hub, idx, list(script)
         self._closed = False
         self._close_ev = asyncio.Event()
+        self.close_code = None                  # what aiohttp's ClientWebSocketResponse exposes after a close frame
 
     @property
     def closed(self):
@@ -68,8 +69,16 @@ class FakeWS:
                 return aiohttp.WSMessage(aiohttp.WSMsgType.BINARY, b"\x00\x01", None)
             if kind == "close":
                 self._closed = True
+                if len(step) > 1:
+                    self.close_code = step[1]       # 1000 normal, 1001 going away, 1012 service restart, 1011 ...
                 self.hub.log.append(("server_close", self.idx, self.hub.now()))
                 raise StopAsyncIteration
+            if kind == "wserror":
+                # a protocol-level fault as aiohttp reports it (unanswered heartbeat, invalid UTF-8, oversized frame):
+                # one message of type ERROR, after which the connection is gone
+                self._closed = True
+                self.hub.log.append(("server_drop", self.idx, self.hub.now()))
+                return aiohttp.WSMessage(aiohttp.WSMsgType.ERROR, RuntimeError("protocol error"), None)
             if kind == "drop":
                 self._closed = True
                 self.hub.log.append(("server_drop", self.idx, self.hub.now()))
@@ -497,6 +506,15 @@ def monitor(sc, log, adapter):
                                     f"{t + period + 5} (period {period}s)"))
                         return out
                     t = max(nxt)
+    # M7: a connection that ended is followed by another attempt (while the client runs, after the back-off)
+    attempts_all = sorted(r[1] for r in log if r[0] in ("connect", "connect_failed"))
+    for idx, (start, stop) in conns.items():
+        if stop < end and stop + sc.get("backoff", 1) + settle < end:
+            if not any(a > start and a <= stop + sc.get("backoff", 1) + settle for a in attempts_all if a != start):
+                out.append(("ws:no-reconnection",
+                            f"connection {idx} ended at {stop}; no new connection attempt until "
+                            f"{stop + sc.get('backoff', 1) + settle} (back-off {sc.get('backoff', 1)}s, run ends at {end})"))
+                return out
     # M6: back-off between connection attempts
     attempts = [r[1] for r in log if r[0] in ("connect", "connect_failed")]
     for a, b in zip(attempts, attempts[1:]):
@@ -587,8 +605,13 @@ def gen_scenario(rnd):
             elif r < 0.7 and client in ("generic", "binance"):
                 script.append(("special", "expire", ch if client == "generic" else "user"))
         if k < nconn - 1:
-            script.append(("delay", round(rnd.uniform(0.2, 20), 3)))
-            script.append((rnd.choice(["close", "drop", "garbage", "reconnect"]),))
+            if rnd.random() < 0.25:
+                # a connection the server ends at once (a restart in progress): shorter than the back-off
+                script = [("delay", round(rnd.uniform(0.05, 0.5), 3))]
+            else:
+                script.append(("delay", round(rnd.uniform(0.2, 20), 3)))
+            how = rnd.choice(["close", "drop", "garbage", "reconnect", "wserror", "closecode"])
+            script.append(("close", rnd.choice([1000, 1001, 1012, 1011, 1006])) if how == "closecode" else (how,))
         scripts.append(script)
     return {"client": client, "initial": initial, "registrations": regs, "scripts": scripts, "end": 160.0,
             "sub_delay": rnd.choice([0, 0, 0.5, 2.0]), "backoff": rnd.choice([1, 1, 3]),
